@@ -471,13 +471,15 @@ UNITS = {
             _lazy("contracts.shorten_block", "unit_fix", "C13"), _lazy("contracts.shorten_block", "unit_div", "C13"),
             _lazy("contracts.shorten_block", "unit_setup", "C13"), _lazy("contracts.shorten_block", "unit_loop", "C13"),
             _lazy("contracts.shorten_block", "unit_header", "C13"), _lazy("contracts.shorten_block", "unit_word_get", "C13")],
-    "C11": [unit_read_signal("C11", "dispatch"), unit_read_signal("C11", "wds"), unit_read_signal("C11", "infer"), unit_readers("C11")],
+    "C11": [unit_read_signal("C11", "dispatch"), unit_read_signal("C11", "wds"), unit_read_signal("C11", "infer"), unit_readers("C11"),
+            _lazy("contracts.sphere_header", "unit_parse", "C11")],
     "C16": [unit_std("C16", "accumulate_vector"), unit_std("C16", "apply_vector"), unit_std("C16", "have_stats"), unit_std_tensor("C16"), unit_std_apply_tensor("C16")],
     "C17": [unit_std("C17", "accumulate_vector"), _lazy("contracts.standardize", "unit_sanitize_accepts_saved", "C17"), unit_readers("C17"),
             _lazy("contracts.standardize_save", "unit_save", "C17")],
     "C08": [unit_alias_arg("C08")],
     "C18": [unit_pre("C18", "preemph"), unit_pre("C18", "dither"), _lazy("contracts.purity", "unit_purity", "C18")],
-    "C12": [unit_copy_samples("C12"), _lazy("contracts.sphere", "unit_g711", "C12"), unit_header_validation("C12")],
+    "C12": [unit_copy_samples("C12"), _lazy("contracts.sphere", "unit_g711", "C12"), unit_header_validation("C12"),
+            _lazy("contracts.sphere_header", "unit_parse", "C12")],
     "C20": [unit_circshift("C20"), _lazy("contracts.util_misc", "unit_angular", "C20"), unit_windows("C20"), _lazy("contracts.purity", "unit_purity", "C20")],
     "C05": [unit_tri("C05", "init"), unit_tri("C05", "truncated"), unit_fbank("C05", "init"), unit_fbank("C05", "truncated"), unit_gabor("C05"), unit_gamma_prefix("C05"), _lazy("contracts.purity", "unit_purity", "C05")],
     "C06": [unit_tri("C06", "truncated"), unit_tri("C06", "init"), unit_fbank("C06", "truncated"), unit_fbank("C06", "init"), _lazy("contracts.purity", "unit_purity", "C06")],
